@@ -208,6 +208,40 @@ theorem C13_compare (u v : U128) :
   simp only [gt_iff_lt, UInt64.lt_iff_toNat_lt]
   split <;> split <;> (try split) <;> (try split) <;> (try split) <;> (try split) <;> (try rfl) <;> omega
 
+theorem length_trimLE_le (b : Bytes) : (trimLE b).length ≤ b.length := by
+  unfold trimLE
+  rw [List.length_reverse]
+  have h : ∀ l : Bytes, (l.dropWhile (fun x => x == 0)).length ≤ l.length := by
+    intro l
+    induction l with
+    | nil => simp
+    | cons x xs ih =>
+      simp only [List.dropWhile_cons]
+      split
+      · simp only [List.length_cons]; omega
+      · simp
+  have := h b.reverse
+  simpa using this
+
+theorem length_bytesLE_le (u : U128) : (bytesLE u).length ≤ 16 := by
+  have := length_trimLE_le (leBytes 8 u.lower.toNat ++ leBytes 8 u.upper.toNat)
+  simpa [bytesLE, length_leBytes] using this
+
+/-- the SCALE form is exactly 16 bytes and denotes the value in little-endian -/
+theorem C13_scale_value (u : U128) : (scaleEnc u).length = 16 ∧ natOfLE (scaleEnc u) = u.toNat := by
+  have h := length_bytesLE_le u
+  refine ⟨?_, ?_⟩
+  · simp [scaleEnc, padLE]; omega
+  · unfold scaleEnc; rw [natOfLE_padLE, C13_bytesLE]
+
+/-- SCALE decoding of the SCALE encoding gives back the value (the path taken by AccountInfo and
+    by genesis balances) -/
+theorem C13_scale_roundtrip (u : U128) : scaleDec (scaleEnc u) = u := by
+  apply toNat_inj
+  have h := C13_scale_value u
+  unfold scaleDec
+  rw [C13_ofBytesLE _ (by omega), h.2]
+
 /-! non-vacuity: a non-palindromic value (513 = 0x0201) satisfies every clause concretely -/
 example : let u : U128 := ⟨0, 513⟩
     bytesLE u = [1, 2] ∧ bytesBE u = [2, 1] ∧ u.toNat = 513 := by decide
